@@ -150,6 +150,7 @@ type vDriver struct {
 	chainOf     map[string]uint32    // digest -> emitter chain of that message
 	dbDown      bool                 // the store was closed on purpose (fault injection)
 	fillReq     bool                 // fault injection: the outbound re-observation queue is full when the tick runs
+	skew        map[string]time.Duration // firstObserved as the implementation set it, minus the node's clock at that moment (0 on the pinned tree)
 	validQuorum map[string]bool      // digests for which a locally assembled VAA carrying a valid quorum of the applicable set was published / stored (the harness's own verdict)
 	lied        map[string]bool
 }
@@ -172,7 +173,7 @@ func vNewDriver(t *testing.T, root context.Context, own *ecdsa.PrivateKey, govCh
 		fs: map[string]int64{}, lr: map[string]int64{}, ids: map[string]vaa.VAAID{}, dbSnap: map[string]string{},
 		keccakT: map[string]string{}, signT: map[string]string{}, recT: map[string]string{},
 		localGS: map[string]*common.GuardianSet{}, localIdx: map[string]bool{}, accepted: map[string]map[ethcommon.Address]bool{},
-		validQuorum: map[string]bool{}, lied: map[string]bool{}, pubCount: map[string]int{}, sawLocal: map[string]bool{}, bodyOf: map[string]string{}, dueMiss: map[string]int{}, foReal: map[string]time.Time{}, txOf: map[string]string{}, chainOf: map[string]uint32{}}
+		skew: map[string]time.Duration{}, validQuorum: map[string]bool{}, lied: map[string]bool{}, pubCount: map[string]int{}, sawLocal: map[string]bool{}, bodyOf: map[string]string{}, dueMiss: map[string]int{}, foReal: map[string]time.Time{}, txOf: map[string]string{}, chainOf: map[string]uint32{}}
 	dr.p = NewProcessor(root, d, nil, nil, dr.sendC, dr.obsvC, dr.reqC, nil, nil, &ecdsasigner.ECDSAPrivateKey{Value: own},
 		common.NewGuardianSetState(nil), reporter.EventListener(zap.NewNop()), nil, govChain, govAddr)
 	dr.h = &vHistory{K: "hist", ID: id, Own: hex.EncodeToString(crypto.PubkeyToAddress(own.PublicKey).Bytes()), OwnKey: hex.EncodeToString(crypto.FromECDSA(own)), GovCh: uint16(govChain),
@@ -385,12 +386,17 @@ drain2:
 	for dg, s := range dr.p.state.vaaSignatures {
 		if _, ok := dr.fs[dg]; !ok {
 			dr.fs[dg] = dr.T
+			// the entry's age runs on the node's clock from the moment the node first saw the digest: whatever else the implementation
+			// put into firstObserved (a time taken from the message, say) is kept as a skew when the virtual clock rewrites the field
+			if k := s.firstObserved.Sub(time.Now()); k > 5*time.Second || k < -5*time.Second {
+				dr.skew[dg] = k.Round(time.Second)
+			}
 		}
-		_ = s
 	}
 	for dg := range dr.fs {
 		if _, ok := dr.p.state.vaaSignatures[dg]; !ok {
 			delete(dr.fs, dg)
+			delete(dr.skew, dg)
 			delete(dr.lr, dg)
 			// a new aggregation lifetime starts if the digest comes back
 			delete(dr.accepted, dg)
@@ -813,7 +819,7 @@ func (dr *vDriver) opCleanup() bool {
 	ok := dr.do(vOp{K: "cleanup"}, func() {
 		now := time.Now()
 		for dg, s := range dr.p.state.vaaSignatures {
-			s.firstObserved = now.Add(-time.Duration(dr.T-dr.fs[dg]) * time.Second)
+			s.firstObserved = now.Add(-time.Duration(dr.T-dr.fs[dg]) * time.Second).Add(dr.skew[dg])
 			b := before{retries: s.retryCount, submitted: s.submitted, hasMsg: s.ourMsg != nil, settled: s.settled, age: dr.T - dr.fs[dg], lrAge: -1}
 			if t, have := dr.lr[dg]; have {
 				s.lastRetry = now.Add(-time.Duration(dr.T-t) * time.Second)
@@ -880,6 +886,9 @@ func (dr *vDriver) opCleanup() bool {
 			}
 		} else {
 			delete(dr.dueMiss, dg)
+		}
+		if !b.hasMsg && !b.submitted && !b.inDB && b.age < 295 && !alive && ok {
+			dr.h.Mon = append(dr.h.Mon, fmt.Sprintf("C02: the signatures parked for a message the node has not observed yet were discarded after %d s: they are kept for about five minutes, so that the node's own observation, whenever it comes within that time, can still complete the quorum", b.age))
 		}
 		if !b.hasMsg && b.settled && b.age >= 300 && alive && ok {
 			dr.h.Mon = append(dr.h.Mon, "C14: an entry for a message the node never observed survived a tick past five minutes")
